@@ -89,6 +89,7 @@ type tracked struct {
 	cmd        erpc.CallCmd
 	issued     chan struct{} // closed when AsyncCall returned
 	noCmd      bool          // AsyncCall returned no command at all
+	unsendable bool          // the request can never be written (its argument's encoder panics)
 	deliveries int32
 }
 
@@ -924,7 +925,7 @@ func runChaos(e *env, idx int, r *core.Rand) {
 		if r.Intn(8) == 0 {
 			// the argument's encoder panics while the call is written: the call completes (with an error) like any other
 			settings[0] = erpc.WithBodyCodec(codec.ID_JSON)
-			m.call(sess, label+" (argument encoder panics)", e.routes["typed"], &panicArg{}, new(tok.Arg), settings...)
+			m.call(sess, label+" (argument encoder panics)", e.routes["typed"], &panicArg{}, new(tok.Arg), settings...).unsendable = true
 			core.Add("calls_whose_argument_encoder_panics", 1)
 			continue
 		}
@@ -934,8 +935,21 @@ func runChaos(e *env, idx int, r *core.Rand) {
 	if after == ncalls {
 		closers = append(closers, act(action, l, m, e, nil)...)
 	}
-	settle()
+	q0 := settle()
+	// a call whose request can never be written waits for nothing: at this quiescent point, before anything else is
+	// closed, it is complete (it must not stay registered until the session ends)
+	var early []viol
+	if q0.Quiescent {
+		m.mu.Lock()
+		for _, t := range m.calls {
+			if t.unsendable && isDone(t.issued) && t.cmd != nil && !isDone(t.cmd.Done()) {
+				early = append(early, viol{"unsendable-call-pending", fmt.Sprintf("%s: its request was never written (the encoder panicked) and the call is still incomplete at quiescence - it can only end when the session does", t.label)})
+			}
+		}
+		m.mu.Unlock()
+	}
 	vs, ok := finish(m, l, closers)
+	vs = append(early, vs...)
 	report(id, "chaos", fmt.Sprintf("%s/%s", e.p.Name, action), desc, vs, ok, fmt.Sprintf("chaos/%s/%s/%d", e.p.Name, action, ncalls))
 }
 
